@@ -120,6 +120,9 @@ Definition parse_pat (v : val) : option pat :=
       else if String.eqb s "q" then Some PPath else if String.eqb s "b" then Some PByteStr
       else if String.eqb s "i" then Some PInt else if String.eqb s "h" then Some PChar
       else if String.eqb s "m" then Some PConcatBad else if String.eqb s "z" then Some PConcatBad
+      (* deeply nested / long concat!: non-literal at depth 5 / at the 21st argument; all-literal *)
+      else if String.eqb s "n" then Some PConcatBad else if String.eqb s "g" then Some PConcatBad
+      else if String.eqb s "d" then Some PConcat else if String.eqb s "l" then Some PConcat
       else None
   | _ => None
   end.
